@@ -133,6 +133,7 @@ def cases(E):
     for kind in ("compound", "scope"):
         cs.append(Case("vf.contracts.c_codegen.balanced_scope_contract", kind, shape_balanced(kind), target=[G + "generate_compound", G + "generate_scope"]))
     cs += assign_frame_cases(E)
+    cs += scope_creation_cases(E)
     # a macro argument that mentions a name is resolved in the scope of the CALL, also after sibling scopes that define the same name privately
     from vf.props import C09 as c09
     cs += [c for c in c09.own_cases(E)]
@@ -140,6 +141,26 @@ def cases(E):
     cs += expansion.cases(E)
     cs.append(Case(H + "scope_replay_wrapper_contract", "{ a: x: .scope s { b: x: { c: x: } } d: } e:", shape_replay, target=[G + "_code_gen", "a816.program.Program.resolve_labels"]))
     return cs
+
+
+def shape_scope_creation(kind):
+    def sh(B):
+        res = S.resolver(B)
+        root = S.root_symbols(B, res, {"x": B.int("x")})
+        # a sibling created earlier under the same parent, of the same class and -- for a named scope -- the same name, holding definitions
+        cls = {"named": "NamedScope", "internal": "InternalScope", "plain": "Scope"}[kind]
+        extra = {"name": "s"} if kind == "named" else {}
+        sib = S.scope(B, res, root, symbols={"l": B.int("l")}, cls="a816.symbols." + cls, **extra)
+        B.I.hmut(B.st, B.I.hget(B.st, sib).fields["code_symbols"]).items["body"] = S.ast_block(B, [])
+        B.I.hmut(B.st, B.I.hget(B.st, res).fields["scopes"]).items.append(sib)
+        return {"resolver": res, "kind": kind, "name": "s"}
+    return sh
+
+
+def scope_creation_cases(E):
+    return [Case("vf.contracts.c_scopes.scope_creation_contract", f"{kind} scope next to an earlier sibling of the same kind{' and name' if kind == 'named' else ''}", shape_scope_creation(kind),
+                 target=[Y + "Resolver.append_scope", Y + "Resolver.append_internal_scope", Y + "Resolver.append_named_scope", Y + "Scope.__init__", Y + "NamedScope.__init__"])
+            for kind in ("plain", "internal", "named")]
 
 
 def assign_frame_cases(E):
